@@ -236,3 +236,60 @@ def run(repo: Repo, rep: Report) -> None:  # noqa: F811
              "and makes nested values land in the dataset-wide graph instead of the named graph", floor=20)
     mods = sorted(m for m in repo.modules if m.startswith("rdflib.plugins.parsers.") or m.startswith("rdflib.plugins.serializers.") or m.startswith("rdflib.plugins.shared.jsonld."))
     argswap.scan(repo, rep, "C06.f-no-swapped-graph-arguments", mods)
+
+
+_run_base2 = run
+
+
+def run(repo: Repo, rep: Report) -> None:  # noqa: F811
+    _run_base2(repo, rep)
+    typed = repo.typed
+    # ------------------------------------------------------------------ (g)
+    rep.rule("C06.g-rows-of-a-graph-come-from-its-own-view",
+             "a quad serializer enumerates the triples of one graph through that graph's view (iterating the Graph / graph.triples(...)); it does not ask the DATASET for "
+             "`triples(pattern, context=g)`: ConjunctiveGraph.triples widens the default graph to the union of all graphs when default_union is on, so every named-graph triple "
+             "would also be written into the default graph", floor=1)
+    n_ser = 0
+    for name in QUAD_SER:
+        mod = repo.mod("rdflib.plugins.serializers." + name)
+        for q, f in mod.functions():
+            for c in own_nodes(f):
+                if isinstance(c, ast.Call) and isinstance(c.func, ast.Attribute) and c.func.attr in ("triples", "triples_choices") and any(k.arg == "context" for k in c.keywords):
+                    tf = typed.type_of(mod.name, c.func.value)
+                    is_ds = tf is not None and any(typed.is_subclass(i, "rdflib.graph.ConjunctiveGraph") for i in tf.items) or norm(c.func.value) in ("self.store",) and tf is None
+                    # in serializers `self.store` is the graph being written (a Dataset for quad formats)
+                    if norm(c.func.value) == "self.store" or is_ds:
+                        n_ser += 1
+                        rep.ob("C06.g-rows-of-a-graph-come-from-its-own-view", mod, q, c, False,
+                               "%s asks the dataset for the triples of one context: with default_union=True the default graph's rows are the union of all graphs" % norm(c)[:70], node=c)
+        n_ser += 1
+        rep.ob("C06.g-rows-of-a-graph-come-from-its-own-view", mod, "<module>", "graphs are enumerated through their own views in %s" % mod.rel, True, "", node=mod.tree)
+
+
+_run_base3 = run
+
+
+def run(repo: Repo, rep: Report) -> None:  # noqa: F811
+    _run_base3(repo, rep)
+    rep.rule("C06.h-trix-unnamed-graph-is-a-fresh-blank-node-graph",
+             "the TriX writer names the default graph explicitly (<uri>) and writes a blank-node-named graph WITHOUT a name element; the TriX reader therefore gives a <graph> "
+             "element without a name a graph of its own with a fresh blank-node identifier (Graph(store=...) without identifier), never the dataset's default graph - otherwise "
+             "blank-node-named graphs are merged into the default graph on the way back", floor=2)
+    ts = repo.mod("rdflib.plugins.serializers.trix")
+    wg = ts.func("TriXSerializer._writeGraph")
+    named_only_uri = any(isinstance(n, ast.If) and "isinstance" in norm(n.test) and "URIRef" in norm(n.test) and ".identifier" in norm(n.test) for n in own_nodes(wg))
+    rep.ob("C06.h-trix-unnamed-graph-is-a-fresh-blank-node-graph", ts, "TriXSerializer._writeGraph", "a name element is written only for IRI-named graphs", named_only_uri,
+           "" if named_only_uri else "the writer's naming scheme changed: re-derive the reader's obligation", node=wg)
+    tp = repo.mod("rdflib.plugins.parsers.trix")
+    sh = tp.func("TriXHandler.startElementNS")
+    creations = [c for c in own_nodes(sh) if isinstance(c, ast.Call) and norm(c.func) == "Graph"]
+    if not creations:
+        raise AnalysisError("TriXHandler.startElementNS: graph creation not found")
+    for c in creations:
+        ident = [k.value for k in c.keywords if k.arg == "identifier"] + (c.args[1:2] if len(c.args) > 1 else [])
+        anon = not ident or (isinstance(ident[0], ast.Call) and norm(ident[0].func) == "BNode" and not ident[0].args)
+        named_from_doc = bool(ident) and not anon and "DEFAULT" not in norm(ident[0]).upper()
+        ok = anon or named_from_doc
+        rep.ob("C06.h-trix-unnamed-graph-is-a-fresh-blank-node-graph", tp, "TriXHandler.startElementNS", c, ok,
+               "fresh blank-node graph" if anon else ("named from the document" if named_from_doc else
+               "an unnamed <graph> is mapped to %s: every blank-node-named graph the writer produced comes back merged into the default graph" % norm(ident[0])), node=c)
